@@ -123,14 +123,15 @@ def axis_lists(b_abs, e_abs, b, e):
     return [], [entry(b, e)]
 
 
-def h09a_rect(row, col, rb, re, cb, ce, rb_abs, re_abs, cb_abs, ce_abs, row_limit):
+def h09a_rect(row, col, rb, re, cb, ce, rb_abs, re_abs, cb_abs, ce_abs, row_window):
     """rectangle reference (colon tract): both corners resolved independently; end points not swapped"""
     trb = rb if rb_abs else row + rb
     tre = re if re_abs else row + re
     tcb = cb if cb_abs else col + cb
     tce = ce if ce_abs else col + ce
     assume(0 <= row < MAX_ROW and 0 <= col < MAX_COL)
-    assume(0 <= trb <= tre < row_limit and 0 <= tcb <= tce < MAX_COL)
+    row_lo, row_limit = row_window
+    assume(row_lo <= trb <= tre < row_limit and 0 <= tcb <= tce < MAX_COL)
     assume(not (trb == tre and tcb == tce))
     m = RefModel([("Sheet 1", [(7, "Table 1")])])
     ar, rr = axis_lists(rb_abs, re_abs, rb, re)
@@ -184,6 +185,7 @@ class NumbersUUIDStub:
 import numbers_parser.model as modelmod  # noqa: E402
 
 ALNUM = [(65, 90), (48, 57)]
+ROW_WINDOWS = [(0, 100), (0x7FFF - 7, 0x7FFF + 9), (0xFFFF - 7, 0xFFFF + 9)]
 HARNESSES = [
     Harness("H09a-cell", h09a_cell,
             dict(row=IntDom(), col=IntDom(), srow=IntDom(), scol=IntDom(), row_abs=BoolDom(), col_abs=BoolDom()),
@@ -194,9 +196,11 @@ HARNESSES = [
                      "header-label (named) references: ScopedNameRefCache"]),
     Harness("H09a-rect", h09a_rect,
             lambda tier: dict(row=IntDom(), col=IntDom(), rb=IntDom(), re=IntDom(), cb=IntDom(), ce=IntDom(), rb_abs=BoolDom(), re_abs=BoolDom(),
-                              cb_abs=BoolDom(), ce_abs=BoolDom(), row_limit=Cases([100 if tier == "quick" else MAX_ROW])),
-            bounds="rectangle corners: every int combination with begin <= end inside 100 rows (quick) / 1 000 000 rows (thorough) x 1000 "
-                   "columns, host anywhere in the table limits; all 16 absolute-flag combinations"),
+                              cb_abs=BoolDom(), ce_abs=BoolDom(),
+                              row_window=Cases(ROW_WINDOWS if tier == "quick" else [(0, MAX_ROW)])),
+            bounds="rectangle corners: every int combination with begin <= end inside the row windows [0,100), [32760,32776), "
+                   "[65528,65544) (quick: the low rows and the rows around the 15/16-bit constants the code compares against) / all "
+                   "1 000 000 rows (thorough) x 1000 columns, host anywhere in the table limits; all 16 absolute-flag combinations"),
     Harness("H09b", h09b_qualify,
             dict(n_host=StrDom(1, ALNUM), n_same=StrDom(1, ALNUM), n_other=StrDom(1, ALNUM), n_third=StrDom(1, ALNUM), n_fourth=StrDom(1, ALNUM), target=Cases([8, 9, 10, 11]), s2=StrDom(1, ALNUM), s3=StrDom(1, ALNUM)),
             bounds="3 sheets with 2+2+1 tables; table and sheet names carry one symbolic alphanumeric character each, so every equality pattern "
